@@ -974,7 +974,16 @@ def settings(ctx):
                 "declare 20% (60% with tag=) / undeclare 15%, the stack argument omitted in 60%; an ask is findProductFromVRO "
                 "(through the instance, with noCache=True, and in half of the cases on a new instance), findTaggedProduct for "
                 "current stable beta t latest, findProduct of a named version; 40% closed by a real Eups.setup on the instance; "
-                "every answer is judged on the database view read back from the files at that step; 8 directed histories")
+                "every answer is judged on the database view read back from the files at that step; 8 directed histories; "
+                "family multi (harness/c03multi.py): sessions of 2-3 live Eups instances in one process, built with "
+                "Eups(flavor=) for flavors out of Linux64 DarwinX86 Linux (85% all different), each with its own -t/-T "
+                "options, over a two-stack database of one or two products whose versions are declared for random sets of "
+                "those flavors and generic (60%: no declaration at all for the flavor of one instance), chain entries "
+                "per flavor; the instances are built in a random order, after each construction the new instance and 75% "
+                "of the older ones are asked, and 80% once more at the end; an ask is findProductFromVRO (with and "
+                "without noCache), findTaggedProduct for five tags, findProduct of a named version, the flavors searched, "
+                "and in 60% a real Eups.setup through the instance; instances with and without the product cache; 90 "
+                "directed sessions (three databases x five flavor line-ups x three option sets x two build orders)")
     ctx.trusted_base = common.COMMON_TRUSTED + [
         "harness/c03.py extract_hooks/extract_taggroups: python ast -> coq/Generated/Config.v, fail-closed (any "
         "non-literal or repeated assignment to the watched config.Eups attributes aborts the check)",
@@ -988,6 +997,10 @@ def settings(ctx):
         "(coq/Model/ResolveSeq.v) and the model's view is compared with the files at every ask; an instance without the "
         "product cache takes every product for new in Eups.declare (findProducts reads the cache only), so for it an "
         "untagged declare is given to the model as a declare with tag=current",
+        "family multi: the flavor list of an instance is given to the model as [its flavor, generic] (the shipped "
+        "hooks.config.Eups.fallbackFlavors); every answer of a session is compared with the extracted resolver on the "
+        "view and the asked instance's own flavor list and options (op caseq without changes), which is run_session's "
+        "answer by instances_do_not_interfere; the files of the stacks are read back at the end of a session",
         "hooks.version_cmp / Eups.version_match enter the model as parameters; the first family of cases runs the "
         "extracted model with a dotted-numeric comparator and one-term expressions and keeps its version names inside "
         "that fragment (1.0 1.1 2.0 10.0); the family versions runs it with the comparator and the matcher of C10 "
@@ -1014,6 +1027,8 @@ def settings(ctx):
         "family seq: changes are made through the instance that is asked (another process changing the files under a "
         "live instance is the subject of the cache properties, not of this family); products without directory and table "
         "(declare with none none); global tags only; the closing setup is the last event of a history",
+        "family multi: the instances only read (changes made under several live instances belong to the cache "
+        "properties); the shipped fallback configuration (generic for every flavor); no dangling chain entries",
         "walk_x_is_designation: wf_dbx, total_order_on, no file called keep, a relational request does not begin with "
         "LOCAL:; resolve_is_designation_user_tags and user_pretag_overrides: worlds of stacks only (plain_world)",
         "walk_is_designation and its corollaries: wf_db (no version name is itself a relational expression, no chain "
@@ -1062,6 +1077,9 @@ def run(ctx):
     # histories on one long-lived instance: resolve / change / resolve (harness/c03seq.py, coq/Model/ResolveSeq.v)
     import c03seq
     c03seq.run_seq(ctx)
+    # sessions of several live instances of different flavors (harness/c03multi.py, Section Sessions of ResolveSeq.v)
+    import c03multi
+    c03multi.run_multi(ctx)
 
 
 def replay(ctx, path):
@@ -1081,6 +1099,9 @@ def replay(ctx, path):
     elif c.get("family") == "seq":
         import c03seq
         c03seq.compare_cases(ctx, [c], label="replay")
+    elif c.get("family") == "multi":
+        import c03multi
+        c03multi.compare_cases(ctx, [c], label="replay")
     else:
         compare_groups(ctx, [case_to_group(c)], label="replay")
     bad = [f for f in ctx.failures if not ctx._known(f)] or ctx.disagreements
